@@ -3,7 +3,10 @@
 use std::any::type_name;
 use std::num::NonZero;
 use std::sync::atomic::{AtomicBool, AtomicU64, Ordering};
+#[cfg(not(folo_verif))]
 use std::sync::{Arc, Mutex};
+#[cfg(folo_verif)]
+use std::sync::Arc;
 use std::thread::{self, JoinHandle as ThreadJoinHandle};
 use std::{fmt, mem, panic};
 
@@ -11,6 +14,9 @@ use event_listener::{Listener, listener};
 use many_cpus::{ProcessorId, SystemHardware};
 use new_zealand::nz;
 use tracing::{debug, trace};
+
+#[cfg(folo_verif)]
+use crate::verif_hook::Mutex;
 
 use crate::{IterationResult, NEVER_POISONED, ProcessorRegistry, Scheduler, WorkerCore};
 
@@ -161,10 +167,7 @@ impl PoolInner {
             hook();
         }
 
-        #[cfg(not(folo_verif))]
         let mut worker_handles = self.worker_handles.lock().expect(NEVER_POISONED);
-        #[cfg(folo_verif)]
-        let mut worker_handles = crate::verif_hook::lock("ensure:worker_handles.lock", &self.worker_handles);
 
         // Re-check shutdown flag under the lock to avoid race condition where
         // join_all_workers() runs concurrently and we add new handles after it
@@ -218,10 +221,7 @@ impl PoolInner {
         // shared state is held while we wait. A worker that calls back into the
         // pool (for example to spawn additional workers) sees the shutdown flag and
         // exits without touching the now-empty handle list.
-        #[cfg(not(folo_verif))]
         let handles = mem::take(&mut *self.worker_handles.lock().expect(NEVER_POISONED));
-        #[cfg(folo_verif)]
-        let handles = mem::take(&mut *crate::verif_hook::lock("join_all:worker_handles.lock", &self.worker_handles));
 
         for handle in handles {
             #[cfg(folo_verif)]
@@ -275,8 +275,6 @@ fn worker_loop(inner: &PoolInner, processor_id: ProcessorId, worker_index: u32) 
                 #[cfg(folo_verif)]
                 crate::verif_hook::point("worker:listen");
                 listener!(state.wake_event => listener);
-                #[cfg(folo_verif)]
-                crate::verif_hook::point("worker:recheck");
 
                 // Re-check after registering listener to avoid lost wakeups.
                 // Acquire ordering synchronizes with Release in signal_shutdown and task push.
